@@ -46,6 +46,8 @@ pub struct GenCfg {
     pub p_props: u32,
     pub p_unnotified: u32,
     pub p_empty_payload: u32,
+    /// probability (percent) that a publish with properties carries a publisher topic alias
+    pub p_pub_alias: u32,
     pub max_burst: usize,
     pub qos_weights: [u32; 3],
     pub small_limits: bool,
@@ -92,6 +94,7 @@ impl Default for GenCfg {
             p_props: 20,
             p_unnotified: 25,
             p_empty_payload: 0,
+            p_pub_alias: 0,
             max_burst: 260,
             qos_weights: [3, 4, 2],
             small_limits: false,
@@ -195,15 +198,21 @@ fn publish_strategy(g: &GenCfg, n: usize) -> BoxedStrategy<Op> {
         pct(g.p_props),
         props_strategy(),
         pct(g.p_unnotified),
+        (pct(g.p_pub_alias), 1u16..4),
     )
-        .prop_map(|(c, topic, qos, retain, size, empty, with_props, props, unnotified)| Op::Publish {
-            c,
-            topic,
-            qos,
-            retain,
-            size: if empty { 0 } else { size },
-            props: if with_props { Some(props) } else { None },
-            notify: !unnotified,
+        .prop_map(|(c, topic, qos, retain, size, empty, with_props, mut props, unnotified, (alias, a))| {
+            if alias {
+                props.topic_alias = Some(a);
+            }
+            Op::Publish {
+                c,
+                topic,
+                qos,
+                retain,
+                size: if empty { 0 } else { size },
+                props: if with_props { Some(props) } else { None },
+                notify: !unnotified,
+            }
         })
         .boxed()
 }
